@@ -126,6 +126,13 @@ package memory
 //@ requires wf(s) && !held(s.mu)
 //@ ensures [wf] wf(s) && !held(s.mu)
 
+//@ func (*memoryStore).RemoveNode
+//@ property C09 C10 C12
+//@ implements store.PoolStore.RemoveNode
+//@ requires wf(s) && !held(s.mu)
+//@ ensures [wf] wf(s) && !held(s.mu)
+//@ ensures [only-the-registry] {C01} sum(acreditsum, s.balances) + sum(tcreditsum, s.trials) == old(sum(acreditsum, s.balances) + sum(tcreditsum, s.trials))
+
 //@ func (*memoryStore).UpdateNodePeers
 //@ property C02 C11 C10 C12
 //@ implements store.PoolStore.UpdateNodePeers
